@@ -8,6 +8,7 @@ import (
 	"go/format"
 	"go/parser"
 	"go/token"
+	"os"
 	"path/filepath"
 	"sort"
 	"strconv"
@@ -19,27 +20,27 @@ import (
 
 // Case is one generation to run and judge.
 type Case struct {
-	ID      int
-	Origin  string // which corpus / universe element
-	Src     *SrcPkg
-	Cfg     Cfg
-	Judge   []string // properties this case is built to decide
-	Repeat  int      // fresh generator instances (C14)
-	RunFmts bool     // also run the other formatters (C16)
-	Solo    bool     // also run every argument alone (C20)
-	Names   []NameRec
-	KF      string // id of the known finding whose shape this input has ("" = none)
-	NoPredict bool // hand-written source: outside the abstract syntax of the models
-	AutoNames bool // C13: judge every written parameter name the models say collides with nothing
-	DropKF    bool // leave the case out when the models predict the shape of a recorded finding
-	Install   string // regenerate with the first output installed under this file name (C15)
+	ID            int
+	Origin        string // which corpus / universe element
+	Src           *SrcPkg
+	Cfg           Cfg
+	Judge         []string // properties this case is built to decide
+	Repeat        int      // fresh generator instances (C14)
+	RunFmts       bool     // also run the other formatters (C16)
+	Solo          bool     // also run every argument alone (C20)
+	Names         []NameRec
+	KF            string            // id of the known finding whose shape this input has ("" = none)
+	NoPredict     bool              // hand-written source: outside the abstract syntax of the models
+	AutoNames     bool              // C13: judge every written parameter name the models say collides with nothing
+	DropKF        bool              // leave the case out when the models predict the shape of a recorded finding
+	Install       string            // regenerate with the first output installed under this file name (C15)
 	AliasOverride map[string]string // model input only: aliases as harvested when moq's own output is part of the package
-	FailAfter *int   // writer that fails after so many bytes (C17)
+	FailAfter     *int              // writer that fails after so many bytes (C17)
 
-	Resp *GenResp
-	Obs  *Obs
-	Solos []MockObs
-	SoloIdx []int
+	Resp     *GenResp
+	Obs      *Obs
+	Solos    []MockObs
+	SoloIdx  []int
 	SoloErrs int // solo generations whose output does not type-check
 }
 
@@ -62,18 +63,18 @@ type srcAlias struct {
 }
 
 type caseRec struct {
-	Case       int        `json:"case"`
-	Origin     string     `json:"origin"`
-	Judge      []string   `json:"judge"`
-	ExpectPkg  string     `json:"expectPkg"`
-	Cfg        Cfg        `json:"cfg"`
-	SrcAliases []srcAlias `json:"srcAliases"`
-	Names      []NameRec  `json:"names"`
-	Solo       []MockObs  `json:"solo"`
-	SoloIdx    []int      `json:"soloIdx"`
-	SoloErrs   int        `json:"soloErrs"`
-	FailingWriter bool    `json:"failingWriter"`
-	Obs        *Obs       `json:"obs"`
+	Case          int        `json:"case"`
+	Origin        string     `json:"origin"`
+	Judge         []string   `json:"judge"`
+	ExpectPkg     string     `json:"expectPkg"`
+	Cfg           Cfg        `json:"cfg"`
+	SrcAliases    []srcAlias `json:"srcAliases"`
+	Names         []NameRec  `json:"names"`
+	Solo          []MockObs  `json:"solo"`
+	SoloIdx       []int      `json:"soloIdx"`
+	SoloErrs      int        `json:"soloErrs"`
+	FailingWriter bool       `json:"failingWriter"`
+	Obs           *Obs       `json:"obs"`
 }
 
 func (c *Case) pkgName() string {
@@ -307,13 +308,14 @@ func JudgeCases(sc *core.Scratch, ev *core.Evidence, tag string, cases []*Case) 
 	if n == 0 {
 		return map[int][]string{}, nil
 	}
+	if d := os.Getenv("VERIF_DUMP"); d != "" {
+		core.WriteFile(filepath.Join(d, "gen-"+tag+".ndjson"), buf.Bytes())
+	}
 	cfg := "SPECIFICATION Spec\nCONSTANTS\n  TraceFile = \"gen.ndjson\"\nINVARIANTS Done\n"
 	res, err := core.RunTLC(sc, &core.TLCOpts{Module: "GenTrace", CfgText: cfg, Workers: 1, Timeout: 30 * time.Minute,
 		Files: map[string][]byte{"gen.ndjson": buf.Bytes()}, HeapGB: 8})
 	if err != nil {
-		if os := filepath.Join(sc.Dir, "gen-"+tag+".ndjson"); true {
-			core.WriteFile(os, buf.Bytes())
-		}
+		core.WriteFile(filepath.Join(sc.Dir, "gen-"+tag+".ndjson"), buf.Bytes())
 		return nil, err
 	}
 	tl := core.PrintedLines(res.Output, "GEN-LINES ")
